@@ -733,13 +733,14 @@ fn run_cleartext(env: &mut Env, signers: &[(&TestKey, HashAlgorithm)], mode: u8,
             1 => {
                 // explicit configuration; Binary type half of the time (the API allows it)
                 let typ = if seed % 4 == 0 { SignatureType::Binary } else { SignatureType::Text };
-                let cfg = low_level_config(&mut srng, &recs[0], typ, signers[0].1, true)?;
+                // (a configuration without any issuer subpacket is legal: such a signature is a candidate for every key)
+                let cfg = low_level_config(&mut srng, &recs[0], typ, signers[0].1, seed % 3 != 1)?;
                 CleartextSignedMessage::new(text, cfg, &recs[0], &Password::empty()).map_err(|e| e.to_string())
             }
             _ => CleartextSignedMessage::new_many(text, |t| {
                 let mut sigs = Vec::new();
                 for (rs, (_, h)) in recs.iter().zip(signers) {
-                    let cfg = low_level_config(&mut srng, rs, SignatureType::Text, *h, true).map_err(|_| pgp::errors::Error::from(std::io::Error::other("config")))?;
+                    let cfg = low_level_config(&mut srng, rs, SignatureType::Text, *h, seed % 5 != 2).map_err(|_| pgp::errors::Error::from(std::io::Error::other("config")))?;
                     sigs.push(cfg.sign(rs, &Password::empty(), t.as_bytes())?);
                 }
                 Ok(sigs)
@@ -1272,6 +1273,12 @@ pub fn run(ctx: &mut Ctx) {
                     run_cleartext(&mut env, &[(key, hash)], (j % 3) as u8, &t, &mut rng);
                     if n < 2000 || thorough || j % 3 == 0 {
                         run_builder(&mut env, &[(key, hash)], true, j % 4 == 1, true, t.as_bytes(), &mut rng);
+                    }
+                    // several signers in text mode over the same edges (each hasher keeps its own state
+                    // across the reader's 8 KiB pieces)
+                    if j % 2 == 0 || thorough {
+                        let second = if key.kv == 6 { &ed4 } else { &ed6 };
+                        run_builder(&mut env, &[(key, hash), (second, hashes[j % 2])], true, false, j % 3 == 0, t.as_bytes(), &mut rng);
                     }
                     env.ctx.stat("gen:window_edges");
                 }
